@@ -135,10 +135,23 @@ impl MachineState {
     }
 
     pub fn copy_term(&mut self, attr_var_policy: AttrVarPolicy) {
-        let old_h = self.heap.cell_len();
-
-        let a1 = self.registers[1];
+        let a1 = self.store(self.deref(self.registers[1]));
         let a2 = self.registers[2];
+
+        // the copier knows heap variables only: an unbound variable of the
+        // environment is moved to the heap first, or its "copy" is itself.
+        let a1 = if a1.is_stack_var() {
+            let h = self.heap.cell_len();
+
+            step_or_resource_error!(self, self.heap.push_cell(heap_loc_as_cell!(h)));
+
+            self.bind(Ref::heap_cell(h), a1);
+            heap_loc_as_cell!(h)
+        } else {
+            a1
+        };
+
+        let old_h = self.heap.cell_len();
 
         step_or_resource_error!(self, copy_term(CopyTerm::new(self), a1, attr_var_policy));
 
